@@ -65,26 +65,29 @@ def un_node(op, a):
     return (text, a[1], shape, False, a[4])
 
 
-def trees(depth, leaves):
+def trees(depth, leaves, bins=None, uns=None):
     """all trees of depth <= depth"""
+    bins = BIN if bins is None else bins
+    uns = UN if uns is None else uns
     if depth == 1:
         return [leaf_node(n) for n in leaves]
-    sub = trees(depth - 1, leaves)
+    sub = trees(depth - 1, leaves, bins, uns)
     out = [leaf_node(n) for n in leaves]
-    for op in UN:
+    for op in uns:
         for a in sub:
             out.append(un_node(op, a))
-    for op in BIN:
+    for op in bins:
         for a in sub:
             for b in sub:
                 out.append(bin_node(op, a, b))
     return out
 
 
+DEEP = (4, ["I", "Cu"], ["&&", "||", "imply"], ["!", "forall"])      # thorough: one level deeper over a reduced alphabet
+
+
 def cfg():
-    if engine.tier() == "thorough":
-        return 3, ["I", "Cu", "Cl", "Ce", "Du", "Rc"]
-    return 3, ["I", "Cu", "Cl"]
+    return 3, ["I", "Cu", "Cl", "Ce", "Du", "Rc"]      # both tiers
 
 
 def model(place, text):
@@ -97,8 +100,9 @@ LEAF_OK = {}
 
 
 def run_shard(shard):
-    depth, leaves, kind, op, ai = shard
-    sub = trees(depth - 1, leaves)
+    depth, leaves, kind, op, ai = shard[:5]
+    bins, uns = (shard[5], shard[6]) if len(shard) > 5 else (None, None)
+    sub = trees(depth - 1, leaves, bins, uns)
     if kind == "leaf":
         items = [leaf_node(n) for n in leaves]
     elif kind == "un":
@@ -163,6 +167,14 @@ def main():
     for res in engine.pmap(run_shard, shards, chunksize=4):
         rep.merge(res)
     rep.extra["trees"] = len(trees(1, leaves)) + len(UN) * sub_n + len(BIN) * sub_n * sub_n
+    if engine.tier() == "thorough":
+        d4, l4, b4, u4 = DEEP
+        sub4 = len(trees(d4 - 1, l4, b4, u4))
+        shards = [(d4, l4, "un", op, 0, b4, u4) for op in u4] + [(d4, l4, "bin", op, ai, b4, u4) for op in b4 for ai in range(sub4)]
+        for res in engine.pmap(run_shard, shards, chunksize=8):
+            rep.merge(res)
+        rep.extra["trees_depth4_reduced_alphabet"] = len(u4) * sub4 + len(b4) * sub4 * sub4
+        rep.extra["depth4_alphabet"] = {"leaves": l4, "binary": b4, "unary": u4}
     rep.assumptions = ["reference classifier R4 transcribes the statement; acceptance of a formula is demanded only for "
                        "plain conjunctions of atoms accepted alone",
                        "small-scope: depth <= %d, atoms %s" % (depth, leaves)]
